@@ -6,7 +6,7 @@ PROP = Prop(
     modules=[],
     tasks=[],
     bounded=[Native('bounded.rewrite_native.combinators_semantics')],
-    level='other',
+    level='exploration',
     explanation='BOUNDED ONLY at this commit: the real function(s) compared with the reference semantics on the expression '
                 'corpus x a grid of valuations (labelled bounded, nothing counted as proved); contracts for the rewriting '
                 'helpers are being added function by function.',
